@@ -379,6 +379,8 @@ enabled(int t)
 #define ENV_SIGINT 100
 #define ENV_SIGTERM 101
 #define ENV_SPUR 110            /* + thread id */
+#define ENV_DEMOTE 109          /* strict priorities: the running thread drops to the lowest priority */
+static unsigned demote_left;
 
 static void
 post_signal(int sig)
@@ -447,7 +449,15 @@ sched_point(int self)
       for (t = prio_n; t < nthreads; t++)
         if (enabled(t)) alts[n++] = t;
     }
+    if (vs_cfg.policy >= 3 && demote_left > 0 && n >= 2) {
+      /* priority-change points (as in PCT): the only alternative to the
+         strict-priority choice is to demote the thread that would run */
+      n = 1;
+      alts[n++] = ENV_DEMOTE;
+    }
     nthr = n;
+    if (nthr && alts[nthr - 1] == ENV_DEMOTE)
+      nthr--;
     if (nthr == 0) {
       describe_threads();
       vtrace("  DEADLOCK: %s\n", vs_rec->note);
@@ -468,6 +478,19 @@ sched_point(int self)
       for (k = 0; k < n; k++) vtrace(" %d", alts[k]);
       vtrace(" -> %d   wu=%u in=%u out=%u eof=%d\n", pick, work_units, in_slots,
              out_slots, eof);
+    }
+    if (pick == ENV_DEMOTE) {
+      int who = alts[0], i;
+      demote_left--;
+      vtrace("   priority change: t%d drops to the lowest priority\n", who);
+      for (i = 0; i < prio_n; i++)
+        if (prio_order[i] == who) {
+          for (; i + 1 < prio_n; i++)
+            prio_order[i] = prio_order[i + 1];
+          prio_order[prio_n - 1] = who;
+          break;
+        }
+      continue;
     }
     if (pick >= ENV_BASE) {
       if (pick == ENV_SIGINT) { sigs_sent |= 1; post_signal(SIGINT); }
@@ -1476,6 +1499,7 @@ vs_begin(void)
   stderr_broken = 0;
   T[0].mask = vs_cfg.inherit_mask;
   spurious_left = vs_cfg.spurious;
+  demote_left = vs_cfg.demote;
   devpos = 0;
   heap_live = 0;
 }
